@@ -322,13 +322,14 @@ def evaluate(cases, real, model, verd, outcome, tag):
         outcome.cases += 1
         rr, mm, vv = real.get(name, []), model.get(name, []), verd.get(name, [])
         sig = []
+        diverged = False
         for j, op in enumerate(ops):
             outcome.ops += 1
             r = rr[j] if j < len(rr) else ("MISSING", None)
             m = mm[j] if j < len(mm) else ("MISSING", None)
-            if r != m:
+            if r != m and not diverged:
                 outcome.disagree.append((tag + ":" + name, j, r, m))
-                break
+                diverged = True     # keep evaluating the monitors on the REAL trace
             if r[0] == "PANIC":
                 outcome.panics += 1
             sig.append(op.split()[0] + ":" + r[0].split()[0] + (str(len(r[0].split())) if r[0].startswith("F") else ""))
